@@ -118,7 +118,7 @@ class Falls(Exception):
 class Tr:
     def __init__(self, path):
         self.path = path
-        self.tree = normalise(ast.parse(open(path).read(), filename=path))
+        self.tree = normalise(ast.parse(open(path).read(), filename=path), path)
         self.defs = []         # (class, method, lean lines)
         self.dropped = []
         self.tmp = 0
